@@ -184,7 +184,7 @@ fn s_markers(t: &mut Tape, ctx: &mut Ctx) -> Result<(), Failure> {
 }
 
 pub fn streams() -> Vec<Stream> {
-    vec![Stream { name: "markers", kind: Kind::Tape { cases: |t: Tier| t.pick(3_000, 150_000), max_len: 600, f: s_markers }, isolate: false }]
+    vec![Stream { name: "markers", kind: Kind::Tape { cases: |t: Tier| t.pick(12_000, 300_000), max_len: 600, f: s_markers }, isolate: false }]
 }
 
 pub fn def() -> PropertyDef {
